@@ -460,6 +460,8 @@ Variable rescan : bool.               (* true = the original splice: pos goes ba
                                          inserted tokens, which are then scanned a second time *)
 Variable va_fix : bool.               (* true = arguments merged into the variable argument are always
                                          pre-expanded (repaired); false = the original condition *)
+Variable va_whole : bool.             (* true = the variable argument is collected as ONE argument that keeps
+                                         its commas (repaired); false = split at every top-level comma *)
 Variable max_level : nat.
 
 (* ExpanderHelper.splice *)
@@ -597,7 +599,7 @@ Definition push (l : list tok) (name : option string) (s : xst) : xr unit :=
   if Nat.leb max_level (List.length (x_stack s')) then XErr "Overflow" else XVal Datatypes.tt s'.
 
 (* argument collection: the inner `while True` *)
-Fixpoint collect (fuel : nat) (s : xst) (args : list (list tok)) (cur : list tok) (depth : nat)
+Fixpoint collect (fuel : nat) (maxargs : option nat) (s : xst) (args : list (list tok)) (cur : list tok) (depth : nat)
   : xr (list (list tok)) :=
   match fuel with
   | O => XErr "OutOfFuel"
@@ -607,12 +609,14 @@ Fixpoint collect (fuel : nat) (s : xst) (args : list (list tok)) (cur : list tok
     | XErr e => XErr e
     | XVal None _ => XErr "AttributeError"
     | XVal (Some t) s1 =>
-        if is_txt "," t && Nat.eqb depth 1 then collect f s1 (args ++ [cur]) [] depth
-        else if is_txt "(" t then collect f s1 args (cur ++ [t]) (S depth)
+        if is_txt "," t && Nat.eqb depth 1 &&
+           match maxargs with None => true | Some n => Nat.ltb (S (List.length args)) n end
+        then collect f maxargs s1 (args ++ [cur]) [] depth
+        else if is_txt "(" t then collect f maxargs s1 args (cur ++ [t]) (S depth)
         else if is_txt ")" t then
           if Nat.eqb depth 1 then XVal (args ++ [cur]) s1
-          else collect f s1 args (cur ++ [t]) (Nat.pred depth)
-        else collect f s1 args (cur ++ [t]) depth
+          else collect f maxargs s1 args (cur ++ [t]) (Nat.pred depth)
+        else collect f maxargs s1 args (cur ++ [t]) depth
     end
   end.
 
@@ -708,7 +712,8 @@ Fixpoint run (fuel : nat) (s : xst) : res xst :=
                     | XEnd s3 => Ok s3
                     | XErr e => Err e
                     | XVal _ s3 =>
-                      match collect f s3 [] [] 1 with
+                      match collect f (if va_whole && m_variadic m then Some (List.length (m_args m)) else None)
+                                    s3 [] [] 1 with
                       | XEnd s4 => Ok s4
                       | XErr e => Err e
                       | XVal args s4 =>
